@@ -50,6 +50,10 @@ const std = "stake"
 
 var poolDenoms = []string{"btc", "eth", "usdt"}
 
+// burstDenoms are the counterparty coins of the pools a "burst" creates: with them a history holds more than ten
+// pools, so that pool numbers get two digits (lpt-10 sorts before lpt-9, and lpt-1 is a prefix of it)
+var burstDenoms = []string{"c00", "c01", "c02", "c03", "c04", "c05", "c06", "c07", "c08", "c09", "c10", "c11"}
+
 // Look-alike denominations: coins that are NOT the liquidity token of any pool but whose denom has the shape
 // "<name>-<N>" (exactly what types.ParseLptDenom / MsgRemoveLiquidity.ValidateBasic accept), N being a pool
 // sequence the machine can reach (1..3): other prefixes, other letter case, leading zeros.  Two of the traders
@@ -70,7 +74,7 @@ var (
 func csEnv() *chain.Env {
 	csEnvOnce.Do(func() {
 		users := chain.MakeUsers(6)
-		csEnvDflt = chain.NewEnv(chain.Options{GenesisMod: func(app *simapp.SimApp, gs simapp.GenesisState) {
+		csEnvDflt = chain.NewEnv(chain.Options{ExtraDenoms: burstDenoms, GenesisMod: func(app *simapp.SimApp, gs simapp.GenesisState) {
 			cdc := app.AppCodec()
 			var bg banktypes.GenesisState
 			cdc.MustUnmarshalJSON(gs[banktypes.ModuleName], &bg)
@@ -463,6 +467,10 @@ func (m *csMachine) Next(t *rapid.T) csOp {
 		return m.genParams(t)
 	case k < 93:
 		return csOp{Kind: "reimport"}
+	case k < 94 && m.cnt["op-burst"] == 0 && uni(t, "burstgate", 3+1) == 0:
+		// eight to twelve further pools in one go (each goes through the ordinary add-liquidity rules)
+		n := rapid.IntRange(8, len(burstDenoms)).Draw(t, "burst")
+		return csOp{Kind: "burst", Who: m.genWho(t), A: m.amount(t, "std", 40).String(), B: m.amount(t, "tok", 40).String(), C: fmt.Sprint(n), Deadline: 4102444800}
 	default:
 		return csOp{Kind: "block", Dt: gen.Dt(t, "dt")}
 	}
@@ -936,6 +944,22 @@ func (m *csMachine) Apply(op csOp) error {
 	}
 	if op.Kind == "reimport" {
 		return m.applyReimport()
+	}
+	if op.Kind == "burst" {
+		n, err := strconv.Atoi(op.C)
+		if err != nil || n < 1 || n > len(burstDenoms) {
+			return fmt.Errorf("bad replay op %+v", op)
+		}
+		for i := 0; i < n; i++ {
+			if err := m.Apply(csOp{Kind: "add", Who: op.Who, Pool: burstDenoms[i], A: op.A, B: op.B, C: "1", Deadline: op.Deadline}); err != nil {
+				return err
+			}
+		}
+		m.cnt["op-burst"]++
+		if len(m.pools) > 10 {
+			m.cnt["pools>10"]++
+		}
+		return nil
 	}
 	before := m.sheet
 	msg := m.build(op, false)
